@@ -18,6 +18,9 @@ pub const EXPR_ERRORS: &[(&str, &str)] = &[
     ("undefined name", "undef_v"),
     ("operator type error", "1 + \"a\""),
     ("integer overflow", "9223372036854775807 + 1"),
+    ("subtraction overflow", "-9223372036854775807 - 2"),
+    ("multiplication overflow", "4611686018427387904 * 2"),
+    ("quotient overflow", "(-9223372036854775807 - 1) / -1"),
     ("zero divisor", "1 / 0"),
     ("zero remainder", "1 % 0"),
     ("list index out of bounds", "xs[5]"),
